@@ -135,6 +135,58 @@ def retryOnFailure (c : RCfg) (s : RSt) (elapsed : Int) (abortable : Bool) (resu
   let s := if exc && !abortable && c.onRetriesExceeded.isSome then rOnRetriesExceeded s else s
   if exc && !c.returnLastFailure then (exceededResult result, s) else (result.withDone done false, s)
 
+/-! ## retrypolicy.executor.Apply: one iteration of the retry loop
+
+What the loop does with its execution and its executor is abstract here (`LoopOps`): the composition model instantiates these
+operations with its own definitions (`Lemmas/ExecBodiesLink.retryLoop_link`), and the regenerated loop body is proved equal to
+`retryIter` for **every** instantiation — so the *order* of the steps (inner call, cancellation check, exhausted pass-through,
+`PostExecute`, `Done` check, `RecordResult`, delay, `OnRetryScheduled`, the wait, `InitializeRetry`, `OnRetry`) and which of them can end
+the loop is what the source says now. `none` = go round again. -/
+
+structure LoopOps (σ : Type) where
+  innerV : σ → PR                       -- `innerFn(exec)`: the result …
+  innerS : σ → σ                        -- … and what running everything inside does to the state
+  isCanc : σ → Bool × PR                -- `IsCanceledWithResult`
+  exceeded : σ → Bool                   -- `e.retriesExceeded`
+  postV : σ → PR → PR                   -- `e.PostExecute(result)` (classification, `OnFailure` decision or `OnSuccess`)
+  postS : σ → PR → σ
+  recordV : σ → PR → Option PR          -- `RecordResult(result)`: a cancel result, or nil
+  recordS : σ → PR → σ
+  delayV : σ → PR → Int                 -- `e.getDelay`
+  delayS : σ → PR → σ
+  hasOnRetryScheduled : Option Unit := some ()
+  onRetryScheduled : σ → PR → Int → σ
+  wait : σ → Int → σ                    -- the timer / cancellation select
+  initV : σ → Option PR                 -- `InitializeRetry()`
+  initS : σ → σ
+  hasOnRetry : Option Unit := some ()
+  onRetry : σ → PR → σ
+
+/-- reference definition of one iteration -/
+def retryIter {σ : Type} (ops : LoopOps σ) (s0 : σ) : Option PR × σ :=
+  let res := ops.innerV s0
+  let s := ops.innerS s0
+  if (ops.isCanc s).1 then (some (ops.isCanc s).2, s)
+  else if ops.exceeded s then (some res, s)
+  else
+    let res2 := ops.postV s res
+    let s := ops.postS s res
+    if res2.done then (some res2, s)
+    else
+      match ops.recordV s res2 with
+      | some c => (some c, ops.recordS s res2)
+      | none =>
+        let s := ops.recordS s res2
+        let d := ops.delayV s res2
+        let s := ops.delayS s res2
+        let s := if ops.hasOnRetryScheduled.isSome then ops.onRetryScheduled s res2 d else s
+        let s := ops.wait s d
+        match ops.initV s with
+        | some c => (some c, ops.initS s)
+        | none =>
+          let s := ops.initS s
+          (none, if ops.hasOnRetry.isSome then ops.onRetry s res2 else s)
+
 /-! ## policy.BaseExecutor.PostExecute -/
 
 /-- reference definition: a failure is marked (`WithFailure`) *before* `OnFailure` sees it and what `OnFailure` returns is the
